@@ -109,6 +109,41 @@ class _Mutator(ast.NodeTransformer):
             node.op = new
         return node
 
+    def visit_BinOp(self, node):
+        self.generic_visit(node)
+        swap = {ast.Add: ast.Sub, ast.Sub: ast.Add, ast.Mult: ast.Div, ast.Div: ast.Mult, ast.FloorDiv: ast.Div,
+                ast.Mod: ast.FloorDiv}
+        t = swap.get(type(node.op))
+        if t is not None and not (isinstance(node.op, (ast.Add, ast.Mod)) and
+                                  (isinstance(node.left, (ast.Constant, ast.JoinedStr)) and isinstance(getattr(node.left, "value", None), str)
+                                   or isinstance(node.left, ast.JoinedStr))) and self._hit():
+            self.desc = f"line {node.lineno}: {type(node.op).__name__} -> {t.__name__}"
+            node.op = t()
+        return node
+
+    def visit_UnaryOp(self, node):
+        self.generic_visit(node)
+        if isinstance(node.op, ast.Not) and self._hit():
+            self.desc = f"line {node.lineno}: `not` removed"
+            return node.operand
+        return node
+
+    def visit_Expr(self, node):
+        # a statement-level call dropped
+        if isinstance(node.value, ast.Call) and self._hit():
+            self.desc = f"line {node.lineno}: statement dropped: {ast.unparse(node)[:60]}"
+            return ast.copy_location(ast.Pass(), node)
+        self.generic_visit(node)
+        return node
+
+    def visit_Assign(self, node):
+        # an assignment to object state dropped
+        if any(isinstance(t, ast.Attribute) for t in node.targets) and self._hit():
+            self.desc = f"line {node.lineno}: statement dropped: {ast.unparse(node)[:60]}"
+            return ast.copy_location(ast.Pass(), node)
+        self.generic_visit(node)
+        return node
+
 
 def _count_sites(fnode):
     m = _Mutator(-2)
